@@ -223,16 +223,40 @@ pub fn property() -> Property {
             "GLM target scale: the targets are multiplied by 10^s, s in {0 (5 of 12), -9, -8 (2 of 12), -6, -3, 3, 6}; log and logit models then always get an intercept (the scale can only move into it), the logit link \
              takes s <= 0 only; a returned point whose gradient exceeds 10*tol while the curvature estimate overflows (means ~1e-120) is counted, not judged"
                 .into(),
+            "options at their defaults: in 2 of 5 logistic cases a random subset of {alpha, with_intercept, gradient_tolerance, max_iterations} and in half of the GLM cases a subset of \
+             {link, alpha, fit_intercept, tol, max_iter, power} is NOT set on the builder; the oracle then uses the documented default (logistic doc comments: alpha 1.0, intercept true, \
+             gradient tolerance 1e-4, 100 iterations; Tweedie: link = identity for power <= 0 and log otherwise per the doc comment of `link`, alpha 1, fit_intercept true, power 1, tol 1e-4, \
+             max_iter 100 as set by TweedieRegressorParams::new(), which mirrors scikit-learn)"
+                .into(),
             "only f64 is exercised".into(),
             format!("oracle self-test: analytic gradient/Hessian of the harness objectives agree with central differences within {:e} relative", FD_TOL),
         ],
         subs: vec![
             prop_sub("multinomial", 4000, 36000, |t: Tier| logistic::case_strategy(true, t), multinomial_isolated)
                 .chunks(16)
-                .require(&["alpha0_overlapping", "labels_string", "classes_6", "multi_extreme_scores", "naming_not_in_class_order"]),
+                .require(&[
+                    "alpha0_overlapping",
+                    "labels_string",
+                    "classes_6",
+                    "multi_extreme_scores",
+                    "naming_not_in_class_order",
+                    "default_alpha_not_set",
+                    "default_intercept_not_set",
+                    "default_gradient_tolerance_not_set",
+                ]),
             prop_sub("binary", 8000, 72000, |t: Tier| logistic::case_strategy(false, t), binary_isolated)
                 .chunks(16)
-                .require(&["alpha0_overlapping", "labels_string", "labels_bool", "binary_extreme_scores", "threshold_at_boundary", "imbalanced"]),
+                .require(&[
+                    "alpha0_overlapping",
+                    "labels_string",
+                    "labels_bool",
+                    "binary_extreme_scores",
+                    "threshold_at_boundary",
+                    "imbalanced",
+                    "default_alpha_not_set",
+                    "default_intercept_not_set",
+                    "default_gradient_tolerance_not_set",
+                ]),
             prop_sub("glm", 9000, 90000, glm::case_strategy, glm_isolated)
                 .chunks(16)
                 .require(&[
@@ -245,6 +269,11 @@ pub fn property() -> Property {
                     "target_scale_1e-8",
                     "target_scale_1e6",
                     "tiny_targets_log_link_solver_moved",
+                    "default_link_not_set_power_0",
+                    "default_alpha_not_set",
+                    "default_fit_intercept_not_set",
+                    "default_tol_not_set",
+                    "default_max_iter_not_set",
                 ]),
             prop_sub("oracle_selftest", 1200, 6000, |_t: Tier| self_strategy(), selftest).chunks(2),
         ],
